@@ -524,7 +524,7 @@ def run_property(pid, spec, tier, seed):
     atexit.register(cleanup)
     logdir = os.path.join(work, 'logs')
     os.makedirs(logdir)
-    replaydir = os.path.join(VERIF, 'replays', pid)
+    replaydir = os.path.join(os.environ.get('SYMX_REPLAY_DIR', os.path.join(VERIF, 'replays')), pid)
     shutil.rmtree(replaydir, ignore_errors=True)
     queries = spec.queries(tier, seed)
     keys = [q.key for q in queries]
@@ -654,6 +654,7 @@ def write_evidence(pid, spec, tier, seed, recs, queries, violations, known, inco
         'wall_s': round(wall, 1),
         'violations': len(violations),
     }
-    os.makedirs(os.path.join(VERIF, 'evidence'), exist_ok=True)
-    with open(os.path.join(VERIF, 'evidence', pid + '.json'), 'w') as f:
+    evdir = os.environ.get('SYMX_EVIDENCE_DIR', os.path.join(VERIF, 'evidence'))
+    os.makedirs(evdir, exist_ok=True)
+    with open(os.path.join(evdir, pid + '.json'), 'w') as f:
         json.dump(ev, f, indent=1)
